@@ -1,73 +1,13 @@
 import Verif.Util.Proto
 import Verif.Model.Codec.CValueSx
 import Verif.Model.Codec.Ccf
+import Verif.Util.CodecDrv
 /-! Driver for stream `ccf` (C42): ops `enc <mode> <sx>`, `rt <sx>`, `perm <sx> <sx'>`, `strict <mode> <sx>`, `mutb <hex>`. -/
-open Verif.Proto Verif.Model.Codec Verif.Model.Codec.Ccf
+open Verif.Proto Verif.Model.Codec Verif.Model.Codec.Ccf Verif.Util.CodecDrv
 
 namespace DrvCcf
 
 def modeOf (s : String) : Mode := if s == "det" then Mode.deterministic else Mode.default
-
-def kindTag : CValue → String
-  | .nilv => "v-nil" | .void => "v-void" | .none => "v-none" | .some _ => "v-some" | .bool _ => "v-bool"
-  | .str _ => "v-str" | .char _ => "v-char" | .addr _ => "v-addr" | .int k _ => "v-" ++ k | .fix k _ => "v-" ++ k
-  | .arr _ _ => "v-array" | .dict _ _ => "v-dict"
-  | .comp (.comp k _ _ _ _) _ => "v-" ++ k.name
-  | .comp _ _ => "v-comp?" | .path _ _ => "v-path" | .cap _ _ _ => "v-cap" | .type _ => "v-type"
-  | .range _ _ _ _ => "v-range" | .func _ => "v-func"
-
-mutual
-/-- the value with the entries of every dictionary in encoding order (sorted by the encoded key):
-"equal value" treats a dictionary as the set of its entries -/
-def canon (tids : List Collected) : CValue → CValue
-  | .some v => .some (canon tids v)
-  | .arr t vs => .arr t (canonValues tids vs)
-  | .dict t kvs =>
-    let l := (canonPairs tids kvs).toList
-    let keyed := l.map fun (k, v) =>
-      (match value Mode.default tids false k (dictKeyType t) with | .ok x => Cbor.encode x | .error _ => [], (k, v))
-    .dict t (Pairs.ofList ((sortBy (fun a b => bytesLe a.1 b.1) keyed).map (·.2)))
-  | .comp t vs => .comp t (canonValues tids vs)
-  | .range t s e p => .range t (canon tids s) (canon tids e) (canon tids p)
-  | v => v
-def canonValues (tids : List Collected) : Values → Values
-  | .nil => .nil | .cons v r => .cons (canon tids v) (canonValues tids r)
-def canonPairs (tids : List Collected) : Pairs → Pairs
-  | .nil => .nil | .cons k v r => .cons (canon tids k) (canon tids v) (canonPairs tids r)
-end
-
-mutual
-/-- a nil whose optional nesting is flatter than its static type, or an optional Void: CCF encodes
-these as the same CBOR nil as the fully nested nil -/
-def nilAmbiguous : CValue → CType → Bool
-  | .none, .opt (.opt _) => true
-  | .some .void, _ => true
-  | .some v, .opt t => nilAmbiguous v t
-  | .some v, _ => nilAmbiguous v .nil
-  | .arr t vs, _ => nilAmbiguousVs vs (elemType t)
-  | .dict t kvs, _ => nilAmbiguousPs kvs (dictKeyType t) (dictValType t)
-  | .comp (.comp _ _ _ fs _) vs, _ => nilAmbiguousFs vs fs
-  | _, _ => false
-def nilAmbiguousVs : Values → CType → Bool
-  | .nil, _ => false | .cons v r, t => nilAmbiguous v t || nilAmbiguousVs r t
-def nilAmbiguousPs : Pairs → CType → CType → Bool
-  | .nil, _, _ => false | .cons k v r, kt, vt => nilAmbiguous k kt || nilAmbiguous v vt || nilAmbiguousPs r kt vt
-def nilAmbiguousFs : Values → Fields → Bool
-  | .nil, _ => false | .cons v r, fs => nilAmbiguous v (fieldTypeAt fs) || nilAmbiguousFs r (fieldsRest fs)
-end
-
-mutual
-def hasFunctionValue : CValue → Bool
-  | .func _ => true
-  | .some v => hasFunctionValue v
-  | .arr _ vs | .comp _ vs => hasFunctionValueVs vs
-  | .dict _ kvs => hasFunctionValuePs kvs
-  | _ => false
-def hasFunctionValueVs : Values → Bool
-  | .nil => false | .cons v r => hasFunctionValue v || hasFunctionValueVs r
-def hasFunctionValuePs : Pairs → Bool
-  | .nil => false | .cons k v r => hasFunctionValue k || hasFunctionValue v || hasFunctionValuePs r
-end
 
 def renderE (r : E (List UInt8)) : String :=
   match r with
